@@ -453,6 +453,10 @@ class RewriterMethod(Spec):
         }
         if method == "insert":
             self.calls["super().insert"] = BUILDER_INSERT
+        if method != "notify_op_modified":
+            # a mutating method may report through the rewriter's own notify_op_modified: its (two-line) body is executed, so "the flag is set and the
+            # listener is told" is decided on the code, whichever of the two spellings the method uses
+            self.inline = dict(getattr(self, "inline", {}) or {}, **{"self.notify_op_modified": Inline(PR, "PatternRewriter.notify_op_modified")})
         if method in ("erase_block_argument", "replace"):
             self.calls["self.replace_all_uses_with"] = RewriterMethod("replace_all_uses_with")
         if method == "replace":
